@@ -225,3 +225,31 @@ func DropLosesInfoTombstone(db *db19.Database, a *Admin) bool {
 	correct := ic != 0 && ic == info.Clock
 	return buggy && !correct
 }
+
+// RefusedBuildLeaksFlags reports whether the request is an ensure / alter
+// create that adds a key to a table with rows and that must be refused
+// because the existing rows violate a new index (duplicate value / foreign
+// key). Finding C21/refused-build-leaks-primary: Database.buildIndexes
+// appends the new indexes to a shallow copy of the live schema
+// (`ts.Indexes = append(ts.Indexes, newIdxs...)`, spare capacity from the
+// parser's make(.., 0, 4)) and SetupNewIndexes -> setPrimary /
+// setContainsKey then rewrite the Primary / ContainsKey flags of the *live*
+// index entries before the build fails: e.g. after the refused `ensure tb
+// (c) key(c) in ta(a)` on tb key(a,c), key(a,c) is no longer Primary and
+// duplicate (a,c) rows are accepted.
+func RefusedBuildLeaksFlags(w *World, a *Admin) bool {
+	if a == nil || (a.Kind != "ensure" && a.Kind != "altercreate") {
+		return false
+	}
+	t := w.Tables[a.Table]
+	if t == nil || len(t.Rows) == 0 {
+		return false
+	}
+	newKey := false
+	for _, ix := range a.Idx {
+		if ix.Mode == 'k' && t.findIndex(ix.Cols) < 0 {
+			newKey = true
+		}
+	}
+	return newKey && w.newIndexViolated(t, a, a.Kind == "ensure")
+}
